@@ -170,7 +170,7 @@ Qed.
 
 (** ---------- the whole arm and the monitor ---------- *)
 Definition model_case (cfg : config) (last : option Z) (now : Z) (ins : list selin) (critical : bool) (p : pkt)
-                      (ls : list link) : case :=
+                      (ls : list link) : dcase :=
   mkCase cfg last now ins critical p ls
          (fst (handle true cfg last now ins critical p ls)) (snd (handle true cfg last now ins critical p ls)).
 
@@ -292,4 +292,91 @@ Proof.
       rewrite Eb, (eligible_cfg_of_eligible cfg now l He Hc). cbn [negb]. rewrite others_ok_forward by exact Hx. reflexivity.
     + rewrite Hlen, Nat.eqb_refl. cbn [negb]. rewrite others_ok_none by exact Hx. reflexivity.
   - cbn [fst snd]. rewrite Hlen, Nat.eqb_refl. cbn [negb]. rewrite others_ok_none by exact Hx. reflexivity.
+Qed.
+
+(** ---------- fault histories: the abstract queue model never transmits on a link that is down ---------- *)
+Definition finv (s : list flink) : Prop := Forall (fun l => fst l = false -> snd l = 0) s.
+
+(** the scheduler's choice is a connected link (what C04_route_eligible gives: eligible links have
+    completed registration; [connected] and the phase are set together by REG3 and by the resets) *)
+Definition fop_wf (s : list flink) (o : fop) : Prop :=
+  match o with
+  | FClient (Some k) _ => exists l, nth_error s k = Some l /\ fst l = true
+  | _ => True
+  end.
+
+Lemma fupd_Forall (P : flink -> Prop) f : (forall l, P l -> P (f l)) -> forall s i, Forall P s -> Forall P (fupd i f s).
+Proof.
+  intros Hf. induction s as [|x t IH]; intros i H; cbn [fupd]; [constructor|].
+  inversion H; subst. destruct i; constructor; auto.
+Qed.
+
+Lemma fupd_Forall_at (P : flink -> Prop) f : forall s i l, nth_error s i = Some l -> P (f l) ->
+  Forall P s -> Forall P (fupd i f s).
+Proof.
+  induction s as [|x t IH]; intros i l Hn Hp H; cbn [fupd]; [constructor|].
+  inversion H; subst. destruct i; cbn in Hn.
+  - inversion Hn; subst. constructor; assumption.
+  - constructor; [assumption|]. eapply IH; eassumption.
+Qed.
+
+Lemma fupd_const_Forall (P : flink -> Prop) v : P v -> forall s i, Forall P s -> Forall P (fupd i (fun _ => v) s).
+Proof. intros Hv. apply fupd_Forall. intros; exact Hv. Qed.
+
+Lemma fstep_inv s o : finv s -> fop_wf s o -> finv (fst (fstep_model s o)).
+Proof.
+  unfold finv. intros H Hw. destruct o as [[k|] fl| |i|i|i|]; cbn [fstep_model fst]; try exact H.
+  - destruct Hw as (l & Hn & Hc).
+    assert (H1 : Forall (fun l => fst l = false -> snd l = 0) (fupd k (fun l => (fst l, snd l + 1)) s)).
+    { eapply fupd_Forall_at; [exact Hn| |exact H]. cbn. intros E. congruence. }
+    destruct fl; cbn [fst]; [|exact H1].
+    apply fupd_Forall; [|exact H1]. intros l0 _. cbn. reflexivity.
+  - induction H; cbn; constructor; auto.
+  - apply fupd_const_Forall; [|exact H]. reflexivity.
+  - apply fupd_const_Forall; [|exact H]. reflexivity.
+  - apply fupd_Forall; [|exact H]. intros l0 _. cbn. reflexivity.
+Qed.
+
+Lemma map_const_zero_quiet {A} (pre : list bool) (s : list A) : tx_while_down pre (map (fun _ => 0) s) = false.
+Proof.
+  revert pre. induction s as [|x t IH]; intros [|c pre]; cbn; try reflexivity.
+  rewrite IH. destruct c; reflexivity.
+Qed.
+
+Lemma fstep_quiet s o : finv s -> fop_wf s o -> tx_while_down (map fst s) (snd (fstep_model s o)) = false.
+Proof.
+  intros H Hw. destruct o as [[k|] fl| |i|i|i|]; cbn [fstep_model snd]; try apply map_const_zero_quiet.
+  - destruct fl; cbn [snd]; [|apply map_const_zero_quiet].
+    (* threshold flush on the chosen, connected link *)
+    destruct Hw as (l & Hn & Hc).
+    assert (G : forall (s1 : list flink) (pre : list bool) j,
+              (forall i c, nth_error pre i = Some c -> (j + i)%nat = k -> c = true) ->
+              tx_while_down pre (map (fun p => if Nat.eqb (fst p) k then snd (snd p) else 0)
+                                     (combine (seq j (length s1)) s1)) = false).
+    { induction s1 as [|x t IH]; intros pre j Hp; destruct pre as [|c pre]; cbn; try reflexivity.
+      rewrite (IH pre (S j)).
+      - destruct (Nat.eqb j k) eqn:E.
+        + apply Nat.eqb_eq in E. rewrite (Hp 0%nat c eq_refl) by lia. reflexivity.
+        + cbn. rewrite andb_false_r. reflexivity.
+      - intros i c0 Hi Hj. apply (Hp (S i) c0 Hi). lia. }
+    apply G. intros i c Hi Hj. cbn in Hj. subst i.
+    rewrite nth_error_map in Hi. unfold flink in *. rewrite Hn in Hi. cbn in Hi. inversion Hi; subst. exact Hc.
+  - (* flush tick: every link sends its queue; a link that is down has an empty one *)
+    clear Hw. unfold finv in H. induction H as [|x t Hx Ht IH]; cbn; [reflexivity|].
+    rewrite IH. destruct (fst x) eqn:E; cbn; [reflexivity|]. rewrite (Hx eq_refl). reflexivity.
+Qed.
+
+Fixpoint fops_wf (s : list flink) (ops : list fop) : Prop :=
+  match ops with
+  | [] => True
+  | o :: t => fop_wf s o /\ fops_wf (fst (fstep_model s o)) t
+  end.
+
+Theorem fault_model_monitor s ops : finv s -> fops_wf s ops -> mon_fault (ftrace s ops) = 0%N.
+Proof.
+  revert s. induction ops as [|o t IH]; intros s H Hw; cbn [ftrace]; [reflexivity|].
+  destruct Hw as [Hw Ht].
+  pose proof (fstep_quiet s o H Hw) as Hq. pose proof (fstep_inv s o H Hw) as Hi.
+  destruct (fstep_model s o) as [s' tx]. cbn [fst snd] in *. cbn [mon_fault fs_pre_conn fs_tx].
+  rewrite Hq. apply IH; assumption.
 Qed.
